@@ -181,6 +181,11 @@ class Env:
         e = self.copy(); e.locals[name] = (ty, term); return e
 
 
+def I(block, n=4):
+    """the block on a new line, indented by n (layout of the generated terms only)"""
+    return "\n" + " " * n + block.replace("\n", "\n" + " " * n)
+
+
 def is_self_attr(n):
     return isinstance(n, ast.Attribute) and isinstance(n.value, ast.Name) and n.value.id == "self"
 
@@ -284,7 +289,7 @@ class Method:
     def bind_m(self, env, oterm, base, k, is_val=True):
         """match <oterm : outcome _> with Yield x => k x | o => propagate"""
         x, o = self.fresh(base), self.fresh("o")
-        return "(match %s with Yield %s => %s | %s => %s end)" % (oterm, x, k(x), o, self.r_fail(env, o, is_val))
+        return "(match %s with\n | Yield %s =>%s\n | %s => %s\n end)" % (oterm, x, I(k(x)), o, self.r_fail(env, o, is_val))
 
     def child_call(self, fnname, attr, env, ctx, k, base):
         """Pattern.value(self.attr) / next(self.attr): one call on the child, its new state threaded"""
@@ -296,20 +301,20 @@ class Method:
             v, r = self.fresh(base), self.fresh("rest")
             env2 = env.set_field(f, ty, r)
             stop = ctx.on_stop(env) if ctx.on_stop else self.r_exc(env, "Stop")
-            return "(match %s with %s :: %s => %s | [] => %s end)" % (t, v, r, k("val", v, env2), stop)
+            return "(match %s with\n | %s :: %s =>%s\n | [] =>%s\n end)" % (t, v, r, I(k("val", v, env2)), I(stop))
         if ty != "arg":
             raise Reject("Pattern.value / next on self.%s, which the model types %s" % (attr, ty))
         o, f2, x = self.fresh("o"), self.fresh("self_" + f), self.fresh(base)
         env2 = env.set_field(f, ty, f2)
         if self.mode == "next":
-            stop = ("| Stop => %s " % ctx.on_stop(env2)) if ctx.on_stop else ""
-            return "(let '(%s, %s) := %s %s %s in match %s with Yield %s => %s %s| _ => (%s, %s) end)" % (
-                o, f2, fnname, env.fuel, t, o, x, k("val", x, env2), stop, o, self.st(env2))
+            stop = (" | Stop =>%s\n" % I(ctx.on_stop(env2))) if ctx.on_stop else ""
+            return "(let '(%s, %s) := %s %s %s in\n match %s with\n | Yield %s =>%s\n%s | _ => (%s, %s)\n end)" % (
+                o, f2, fnname, env.fuel, t, o, x, I(k("val", x, env2)), stop, o, self.st(env2))
         if ctx.on_stop:
             raise Reject("try/except in reset / __init__")
         if fnname != "pvalue":
             raise Reject("next() in reset / __init__")
-        return "(let '(%s, %s) := %s %s %s in obind %s (fun %s => %s))" % (o, f2, fnname, env.fuel, t, o, x, k("val", x, env2))
+        return "(let '(%s, %s) := %s %s %s in\n obind %s (fun %s =>%s))" % (o, f2, fnname, env.fuel, t, o, x, I(k("val", x, env2), 1))
 
     def bind_list(self, name, attr, env, cont):
         """x = Pattern.value(self.f) where x is then used as a list: Pattern.value returns a list as it is, so x is the
@@ -320,7 +325,7 @@ class Method:
             raise Reject("Pattern.value(self.%s) used as a list, but the model types the attribute %s" % (attr, ty))
         l = self.fresh("l_" + f)
         env2 = env.set_field(f, "arg", "(AL %s)" % l).set_local(name, "alist:" + f, l)
-        return "(match %s with AL %s => %s | _ => %s end)" % (t, l, cont(env2), self.r_exc(env, "Inexact"))
+        return "(match %s with\n | AL %s =>%s\n | _ => %s\n end)" % (t, l, I(cont(env2)), self.r_exc(env, "Inexact"))
 
     def element_call(self, sub, env, ctx, k, base):
         """Pattern.value(x[i]), x the list held by self.f: one call on the element, whose new state goes back into the list"""
@@ -336,8 +341,9 @@ class Method:
             a, o, a2, x = self.fresh("item"), self.fresh("o"), self.fresh("item"), self.fresh(base)
             l2 = "(update_nth (py_index_pos %s %s) %s %s)" % (l, i, a2, l)
             env2 = env1.set_field(f, "arg", "(AL %s)" % l2).set_local(name, ty, l2)
-            return ("(match py_index %s %s with Some %s => (let '(%s, %s) := pvalue %s %s in match %s with Yield %s => %s | _ => (%s, %s) end) | None => %s end)"
-                    % (l, i, a, o, a2, env1.fuel, a, o, x, k("val", x, env2), o, self.st(env2), self.r_exc(env1, "Raise IndexError")))
+            inner = "(let '(%s, %s) := pvalue %s %s in\n match %s with\n | Yield %s =>%s\n | _ => (%s, %s)\n end)" % (
+                o, a2, env1.fuel, a, o, x, I(k("val", x, env2)), o, self.st(env2))
+            return "(match py_index %s %s with\n | Some %s =>%s\n | None => %s\n end)" % (l, i, a, I(inner), self.r_exc(env1, "Raise IndexError"))
         return self.ev(sub.slice, env, ctx, k1)
 
     def ev(self, n, env, ctx, k, base="x", tail=None):
@@ -412,12 +418,13 @@ class Method:
                 if ti == "val":
                     # a list index must be an int (bool included): anything else is a TypeError
                     z = self.fresh("i")
-                    return "(match int_of %s with Some %s => (match py_index %s %s with Some %s => %s | None => %s end) | None => %s end)" % (
-                        i, z, env1.fields[f][1], z, x, k("val", x, env1), self.r_exc(env1, "Raise IndexError"), self.r_exc(env1, "Raise TypeError"))
+                    inner = "(match py_index %s %s with\n | Some %s =>%s\n | None => %s\n end)" % (
+                        env1.fields[f][1], z, x, I(k("val", x, env1)), self.r_exc(env1, "Raise IndexError"))
+                    return "(match int_of %s with\n | Some %s =>%s\n | None => %s\n end)" % (i, z, I(inner), self.r_exc(env1, "Raise TypeError"))
                 if ti != "Z":
                     raise Reject("index of type %s: %s" % (ti, ast.unparse(n)))
-                return "(match py_index %s %s with Some %s => %s | None => %s end)" % (
-                    env1.fields[f][1], i, x, k("val", x, env1), self.r_exc(env1, "Raise IndexError"))
+                return "(match py_index %s %s with\n | Some %s =>%s\n | None => %s\n end)" % (
+                    env1.fields[f][1], i, x, I(k("val", x, env1)), self.r_exc(env1, "Raise IndexError"))
             return self.ev(n.slice, env, ctx, k1)
         if isinstance(n, ast.Call) and not n.keywords:
             fn = n.func
@@ -445,8 +452,8 @@ class Method:
                     raise Reject("len(self.%s), which the model types %s" % (n.args[0].attr, ty))
                 return k("Z", "(zlen %s)" % t, env)
             if self.mode == "init" and is_static(fn, "Pattern", "pattern") and len(n.args) == 1:
-                return self.ev_arg(n.args[0], env, lambda a, env1: "(obind (patternify %s) (fun %s => %s))" % (
-                    a, "pp_" + base, k("arg", "pp_" + base, env1)))
+                return self.ev_arg(n.args[0], env, lambda a, env1: "(obind (patternify %s) (fun %s =>%s))" % (
+                    a, "pp_" + base, I(k("arg", "pp_" + base, env1), 1)))
         raise Reject("expression not understood: " + ast.unparse(n))
 
     def ev_arg(self, n, env, k):
@@ -531,13 +538,13 @@ class Method:
             raise Reject("too many forks of the symbolic execution")
         kind = ir[0]
         if kind == "pure":
-            return "(if %s then %s else %s)" % (ir[1], kt(), kf())
+            return "(if %s\n then%s\n else%s)" % (ir[1], I(kt()), I(kf()))
         if kind == "cmp":
             o = self.fresh("oc")
-            return "(match %s with Yield true => %s | Yield false => %s | %s => %s end)" % (ir[1], kt(), kf(), o, self.r_fail(env, o, False))
+            return "(match %s with\n | Yield true =>%s\n | Yield false =>%s\n | %s => %s\n end)" % (ir[1], I(kt()), I(kf()), o, self.r_fail(env, o, False))
         if kind == "bind":
             o = self.fresh("o")
-            return "(match %s with Yield %s => %s | %s => %s end)" % (ir[1], ir[2], self.emit_cond(ir[3], env, kt, kf), o, self.r_fail(env, o, True))
+            return "(match %s with\n | Yield %s =>%s\n | %s => %s\n end)" % (ir[1], ir[2], I(self.emit_cond(ir[3], env, kt, kf)), o, self.r_fail(env, o, True))
         if kind == "not":
             return self.emit_cond(ir[1], env, kf, kt)
         if kind == "and":
@@ -648,7 +655,7 @@ class Method:
                 return cont(env1)
             f = self.k.attr2field[order[i]]
             f2 = self.fresh("self_" + f)
-            return "(obind (reset_field rp %s) (fun %s => %s))" % (env1.fields[f][1], f2, go(i + 1, env1.set_field(f, "arg", f2)))
+            return "(obind (reset_field rp %s) (fun %s =>%s))" % (env1.fields[f][1], f2, I(go(i + 1, env1.set_field(f, "arg", f2)), 1))
         return go(0, env)
 
     def call_own_reset(self, env):
@@ -695,11 +702,11 @@ class Method:
         c = self.cond_ir(st.test, env0)
         # the rest after the loop is translated first (its own loops must be defined before this one)
         after = self.run(rest, env0, ctx)
-        body = "(match n with O => %s | S %s => %s end)" % (self.r_exc(env0, "OutOfFuel"), n1, self.run(st.body, env_body, body_ctx))
+        body = "(match n with\n | O => %s\n | S %s =>%s\n end)" % (self.r_exc(env0, "OutOfFuel"), n1, I(self.run(st.body, env_body, body_ctx)))
         term = self.emit_cond(c, env0, lambda: body, lambda: after)
         sig = " ".join("(%s : %s)" % (p, ty) for (_, ty, p) in fparams + lparams)
         self.defs.append("Fixpoint %s (bop : op -> val -> val -> outcome val) (pvalue pnext : nat -> arg -> outcome val * arg)\n"
-                         "    (fuel lfuel n : nat) %s {struct n} : outcome val * pat :=\n  %s." % (name, sig, term))
+                         "    (fuel lfuel n : nat) %s {struct n} : outcome val * pat :=%s." % (name, sig, I(term, 2)))
         return "(%s bop pvalue pnext fuel lfuel lfuel %s)" % (name, " ".join([env.fields[f][1] for (f, _, _) in fparams] + [env.locals[n][1] for (n, _, _) in lparams]))
 
 
@@ -831,7 +838,7 @@ def translate_class(modules, ctors, fname, cname):
             term = m.run(r[1].body, fields_env(), end)
             src = ast.unparse(r[1])
         results["reset"] = (src, "Definition src_%s_reset (rp : pat -> outcome pat) (pvalue : nat -> arg -> outcome val * arg) (fuel : nat)\n"
-                                 "    %s : outcome pat :=\n  %s." % (cname, sig_fields(), term))
+                                 "    %s : outcome pat :=%s." % (cname, sig_fields(), I(term, 2)))
         k.reset_translated = True
     except Reject as e:
         results["reset"] = e
@@ -848,7 +855,7 @@ def translate_class(modules, ctors, fname, cname):
         lf = " lfuel" if k.has_loops else ""
         results["next"] = (ast.unparse(r[1]), "\n".join(m.defs + [
             "Definition src_%s_next (bop : op -> val -> val -> outcome val) (pvalue pnext : nat -> arg -> outcome val * arg)\n"
-            "    (fuel%s : nat) %s : outcome val * pat :=\n  %s." % (cname, lf, sig_fields(), term)]))
+            "    (fuel%s : nat) %s : outcome val * pat :=%s." % (cname, lf, sig_fields(), I(term, 2))]))
     except Reject as e:
         results["next"] = e
     # ---- __init__ ----
@@ -891,7 +898,7 @@ def translate_class(modules, ctors, fname, cname):
         term = m.run(fn.body, env, end)
         sig = " ".join("(p_%s : %s)" % (p, ptypes[p]) for p in params)
         results["init"] = (ast.unparse(fn), "Definition src_%s_init (rp : pat -> outcome pat) (pvalue : nat -> arg -> outcome val * arg) (fuel : nat)\n"
-                                            "    %s : outcome pat :=\n  %s." % (cname, sig, term))
+                                            "    %s : outcome pat :=%s." % (cname, sig, I(term, 2)))
     except Reject as e:
         results["init"] = e
     return k, results
